@@ -9,7 +9,7 @@ def plan(ctx):
         Obligation("rand.ints", "xh", "c19", "rand_ints", timeout=T, bounds="host ints a <= b unbounded; draw any int in [a, b]",
                    desc="rand(a, b) integer n with a <= n <= b (incl. a == b, negative, large)"),
         Obligation("rand.decimals", "xh", "c19", "rand_decimals", timeout=T,
-                   bounds="bounds from a pool of 8 integer-valued Decimals (incl. 1E+1, 2.0, 20 digits)",
+                   bounds="bounds from a pool of 11 integer-valued Decimals (incl. 1E+1, 2.0, 20 and 29 digits, negative); draw within 2 of either end (concrete ints, so Decimal arithmetic downstream is the real one)",
                    desc="rand(a, b) with integer-valued Decimal bounds (what literals produce)"),
         Obligation("rand.choice", "xh", "c19", "rand_choice", timeout=T, bounds="list 1..4 symbolic ints", desc="rand(list) returns an element"),
         Obligation("shuffle", "xh", "c19", "shuffle_perm", timeout=T * 2, bounds="list of 0..4 distinct objects (length symbolic); Fisher-Yates draws symbolic",
